@@ -4,13 +4,13 @@ import PyaModel.Proofs.C09
 
 Property theorems only.
 
-**Model** (`Core/Scope.lean`): `Pya.Sc.reported p x u` — the definition nodes pyanalyze's `FunctionScope` hands to
+**Model** (`Core/Scope.lean`): `Pya.C09.reported p x u` — the definition nodes pyanalyze's `FunctionScope` hands to
 `resolve_name` at use `u` of variable `x` in the function body `p` (`none` = `_UNINITIALIZED`, which `resolve_name`
 turns into `undefined_name` / `possibly_undefined_name`; `diagOf`). The model follows `subscope`, `loop_scope`,
 `suppressing_subscope`, `get_combined_scope`, the visitor's `visit_If/For/While/Try/With/Return/Raise/Break/
 Continue`, the collect-phase second visit of loop bodies and the two-phase function visit.
 
-**Spec** (`Spec/Flow.lean`): `Pya.Sc.reaching lib p x u` — reaching definitions over the structured control-flow
+**Spec** (`Spec/Flow.lean`): `Pya.C09.reaching lib p x u` — reaching definitions over the structured control-flow
 graph with opaque conditions, entry state "unbound":
 * strict (`lib = false`): exception edges only at calls (call statements, `raise`, evaluation of `if` / `while` /
   `for` conditions and context-manager expressions); an exception in a `try` body reaches any handler and is not
@@ -22,13 +22,12 @@ graph with opaque conditions, entry state "unbound":
 The property: `reaching false ⊆ reported ⊆ reaching true` (the second inclusion at uses some liberal path reaches),
 and the unbound marker `none` likewise.
 
-The full statements are FALSE of pyanalyze (and of the model): seven exception classes, each with a witness below.
+The full statements are FALSE of pyanalyze (and of the model): eight exception classes (two of them precision-only), each with a witness below.
 What is proved for all skeletons of a fragment (induction, no size bound): the soundness half (definitions and the
 unbound marker) on the fragment the classes leave among `try`/`with`-free skeletons (loops with `continue`
 included), the precision half on the loop-free fragment, and the two-phase lemma on the full syntax.
 -/
-namespace Pya
-open Sc
+namespace Pya.C09
 
 /-- Full-strength soundness half (not a theorem: see the witnesses). -/
 def C09_sound_full : Prop :=
@@ -39,24 +38,23 @@ def C09_precise_full : Prop :=
   ∀ (p : Block) (x u : Nat) (n : Node), reaching true p x u ≠ [] → n ∈ reported p x u → n ∈ reaching true p x u
 
 /-- **C09, soundness half, partial (S1 + S2).** For every skeleton `p` (any size, any nesting depth) built from
-assignments, uses, calls, `if`/`else`, `while c:` / `for` loops with `continue`, `return` and `raise` — i.e. without
-`try` / `with` (`noTryWith`), without syntactically dead statements (`jumpsLast`), without always-entered `for`
-loops (`plainFor`) and outside the exception classes `loopElse` (R1) and `secondVisitSeed` (R2: `break`,
-`while True`) — with distinct use ids: every definition that reaches use `u` of `x` on a strict path, and the
+assignments, uses, calls, `if`/`else`, `while c:` / `for` loops with `break` and `continue`, `return` and `raise` —
+i.e. without `try` / `with` (`noTryWith`), without syntactically dead statements (`jumpsLast`), without always-entered
+`for` loops (`plainFor`) and outside the exception classes `loopElse` (R1) and `secondVisitSeed` (R2: `while True`) —
+with distinct use ids: every definition that reaches use `u` of `x` on a strict path, and the
 unbound state if it does, is among what pyanalyze reports there. -/
 theorem c09_reported_sound_partial (p : Block) (x u : Nat) (n : Node)
     (hfrag : p.noTryWith = true) (hdead : p.jumpsLast = true) (hfor : p.plainFor = true)
     (hR1 : D09_loopElse p = false) (hR2 : D09_secondVisitSeed p = false) (hids : p.useIds.Nodup)
     (h : n ∈ reaching false p x u) : n ∈ reported p x u := by
-  simp only [D09_secondVisitSeed, Bool.or_eq_false_iff] at hR2
-  have hs := simpleB_of p hfrag hdead hfor hR1 hR2.1 hR2.2
+  have hs := simpleB_of p hfrag hdead hfor hR1 hR2
   cases n with
   | none => exact sound_unbound p hs hids x u h
   | some d => exact sound_defs p hs x u d h
 
-/-- The classes R3, R4, R5 (and R7, which needs a `finally`) cannot occur without `try` / `with`; R6 is a precision-only
-class. So within the `try`/`with`-free skeletons the hypotheses of `c09_reported_sound_partial` exclude exactly R1 and
-R2. -/
+/-- The classes R3, R4, R5 (and R7, which needs a `finally`) cannot occur without `try` / `with`; R2b `loopBreak` and R6
+`nestedLoopJump` are precision-only classes. So within the `try`/`with`-free skeletons the hypotheses of
+`c09_reported_sound_partial` exclude exactly the two classes on which pyanalyze is unsound there, R1 and R2. -/
 theorem c09_tryfree_classes (p : Block) (h : p.noTryWith = true) :
     D09_jumpThroughFinally p = false ∧ D09_loopJumpInSuppressing p = false ∧ D09_suppressingInFinally p = false :=
   noTryWith_classes p h
@@ -109,7 +107,7 @@ def witR1 : Block := .ofList [.assign 0 1, .loop false false (.ofList [.assign 0
 /-- R2 `secondVisitSeed`:  `while True: use(x); x = 1` — reports `{1}` and no undefined name, but the first
 iteration uses `x` unbound. -/
 def witR2 : Block := .ofList [.loop true true (.ofList [.use 0 1, .assign 0 1]) .nil]
-/-- R2, precision side:  `x = 1` / `for …: use(x); if c: x = 2; break` — reports `{1, 2}`, `2` cannot reach. -/
+/-- R2b `loopBreak` (precision):  `x = 1` / `for …: use(x); if c: x = 2; break` — reports `{1, 2}`, `2` cannot reach. -/
 def witR2' : Block :=
   .ofList [.assign 0 1, .loop false false (.ofList [.use 0 1, .ite (.ofList [.assign 0 2, .brk 1]) .nil]) .nil]
 /-- R3 `jumpThroughFinally`:  `for …: try: break` / `finally: x = 1` ; `use(x)` — reports only unbound. -/
@@ -137,8 +135,8 @@ theorem c09_witness_loopElse :
     D09_loopElse witR1 = true ∧ some 2 ∈ reaching false witR1 0 1 ∧ some 2 ∉ reported witR1 0 1 := by decide
 theorem c09_witness_secondVisitSeed :
     D09_secondVisitSeed witR2 = true ∧ none ∈ reaching false witR2 0 1 ∧ none ∉ reported witR2 0 1 := by decide
-theorem c09_witness_secondVisitSeed_precision :
-    D09_secondVisitSeed witR2' = true ∧ some 2 ∈ reported witR2' 0 1 ∧ some 2 ∉ reaching true witR2' 0 1 ∧
+theorem c09_witness_loopBreak :
+    D09_loopBreak witR2' = true ∧ some 2 ∈ reported witR2' 0 1 ∧ some 2 ∉ reaching true witR2' 0 1 ∧
       reaching true witR2' 0 1 ≠ [] := by decide
 theorem c09_witness_jumpThroughFinally :
     D09_jumpThroughFinally witR3 = true ∧ some 1 ∈ reaching false witR3 0 1 ∧ some 1 ∉ reported witR3 0 1 := by
@@ -163,8 +161,8 @@ theorem c09_sound_full_false : ¬ C09_sound_full := fun h =>
 
 /-- The full precision statement is false. -/
 theorem c09_precise_full_false : ¬ C09_precise_full := fun h =>
-  c09_witness_secondVisitSeed_precision.2.2.1
-    (h witR2' 0 1 (some 2) c09_witness_secondVisitSeed_precision.2.2.2 c09_witness_secondVisitSeed_precision.2.1)
+  c09_witness_loopBreak.2.2.1
+    (h witR2' 0 1 (some 2) c09_witness_loopBreak.2.2.2 c09_witness_loopBreak.2.1)
 
 /-! ## Non-vacuity: the hypotheses of the partial theorem are met by a skeleton with nested loops, `continue`,
 `return`, two uses; and both verdicts occur.
@@ -186,6 +184,12 @@ def exFrag : Block :=
     .use 0 2]
 example : exFrag.noTryWith = true ∧ exFrag.jumpsLast = true ∧ exFrag.plainFor = true ∧
     D09_loopElse exFrag = false ∧ D09_secondVisitSeed exFrag = false ∧ exFrag.useIds.Nodup := by decide
+/-- the soundness theorem also covers `break`:  `for …: if c: x = 1; break` / `use(x)` -/
+def exBrk : Block :=
+  .ofList [.loop false false (.ofList [.ite (.ofList [.assign 0 1, .brk 1]) .nil]) .nil, .use 0 1]
+example : exBrk.noTryWith = true ∧ exBrk.jumpsLast = true ∧ exBrk.plainFor = true ∧
+    D09_loopElse exBrk = false ∧ D09_secondVisitSeed exBrk = false ∧ exBrk.useIds.Nodup ∧
+    some 1 ∈ reaching false exBrk 0 1 ∧ none ∈ reaching false exBrk 0 1 := by decide
 example : some 2 ∈ reaching false exFrag 0 1 ∧ some 2 ∈ reported exFrag 0 1 := by decide
 example : diagOf (reported exFrag 0 2) = .ok := by decide
 /-- precision hypotheses: `if c: x = 1; return` / `else: if c: x = 2` ; `use(x)` -/
@@ -197,4 +201,4 @@ example : some 2 ∈ reported exS1 0 1 ∧ none ∈ reported exS1 0 1 ∧ some 1
 example : diagOf (reported (.ofList [.ite (.ofList [.assign 0 1]) .nil, .use 0 1]) 0 1) = .possibly := by decide
 example : diagOf (reported (.ofList [.use 0 1]) 0 1) = .undefined := by decide
 
-end Pya
+end Pya.C09
